@@ -20,15 +20,10 @@ Print Assumptions c04_not_wrapper.
 
 
 (* ---- ties to the constant tables regenerated from the Go sources (tools/gotables -> GoTables.v) ---- *)
-From Coq Require Import List String ZArith NArith Bool. From Bexpr Require Import Base Strconv Ast Univ Eval Api Dump GoTables TableTie. Import ListNotations.
+From Coq Require Import List String ZArith NArith Bool. From Bexpr Require Import Base Strconv Ast Univ Eval Api Dump GoTables TableTie TieNotPresent. Import ListNotations.
 
 Theorem not_present_table :
   forall op : matchop, assoc (mop_go op) go_not_present = Some (bool_go (disposition op)).
-Proof. exact TableTie.not_present_table. Qed.
+Proof. exact TieNotPresent.not_present_table. Qed.
 Print Assumptions not_present_table.
-
-Theorem match_dispatch :
-  forall op : matchop, assoc ("grammar." ++ mop_go op) go_match_dispatch = Some (dispatch_of op).
-Proof. exact TableTie.match_dispatch. Qed.
-Print Assumptions match_dispatch.
 
